@@ -1,4 +1,4 @@
-import ComposeVerif.Lemmas.C02Deep6
+import ComposeVerif.Lemmas.C02Deep11
 /-!
 # C02 — `override.mergeYaml` is independent of map iteration order **at every nesting level at once**
 
@@ -8,9 +8,10 @@ ordered); `WF` = every mapping has distinct keys (what a decoded YAML document s
 `OutEqv`: both merges succeed with `Eqv` results, or both fail (which of several failures is reported may depend on
 the order: error texts are never part of the observation).
 
-Scope: every rule of `mergeSpecials` except `mergeIPAMConfig`, i.e. every path that is not below the top-level
-`networks` section (`Below`); this covers `ExtendService` (rooted at `services.x`) and the whole `services`, `volumes`,
-`secrets`, `configs` sections.  `networks.*.ipam.config` is carried by the correspondence and the load oracle only.
+Scope: **every rule of `mergeSpecials`, `mergeIPAMConfig` included, every path, every fuel** (`mergeYaml_full`), hence
+`override.Merge` and `override.ExtendService` as wholes (`merge_…`, `extendService_…`, with the fuel each of them
+computes from its own override — `fuelFor` is itself invariant).  The first theorems below are the earlier, narrower
+statements (paths outside `networks`), kept because their proofs do not need well-formedness preservation.
 -/
 namespace CV.Deep.Props
 open CV CV.Merge CV.Deep
@@ -42,6 +43,73 @@ theorem mergeYaml_deep_isOk (n : Nat) (p : TPath) (hp : Below p) {e e' o o' : Va
   have h := mergeYaml_congr n p hp e e' o o' he ho we we' wo wo'
   cases h1 : mergeYaml n e o p <;> cases h2 : mergeYaml n e' o' p <;> simp only [h1, h2, OutEqv] at h <;>
     first | rfl | exact h.elim
+
+/-- **every rule, every path, every fuel**: `mergeYaml` respects the equivalence … -/
+theorem mergeYaml_all_levels_all_rules (n : Nat) (p : TPath) {e e' o o' : Val}
+    (he : Eqv e e') (ho : Eqv o o') (we : WF e) (we' : WF e') (wo : WF o) (wo' : WF o') :
+    OutEqv Eqv (mergeYaml n e o p) (mergeYaml n e' o' p) :=
+  (mergeYaml_full n p).1 e e' o o' he ho we we' wo wo'
+
+/-- … and returns trees whose mappings have distinct keys when its arguments do (so stages can be chained) -/
+theorem mergeYaml_preserves_wf (n : Nat) (p : TPath) {e o z : Val} (we : WF e) (wo : WF o)
+    (h : mergeYaml n e o p = .ok z) : WF z := (mergeYaml_full n p).2 e o z we wo h
+
+/-- **`override.Merge` as a whole** (its own fuel): two spellings of the base and of the override that differ only
+in the order of mapping entries, at any depth, merge to two spellings of the same model — or both merges fail -/
+theorem merge_deep_order_independent {base base' over over' : Val}
+    (hb : Eqv base base') (ho : Eqv over over') (wb : WF base) (wb' : WF base') (wo : WF over) (wo' : WF over') :
+    OutEqv Eqv (merge base over) (merge base' over') := by
+  cases hb with
+  | map b1 b2 =>
+    cases ho with
+    | map o1 o2 =>
+      simp only [merge]
+      rw [fuelFor_eqv (.map o1 o2) wo wo']
+      exact (mergeYaml_full _ TPath.root).1 _ _ _ _ (.map b1 b2) (.map o1 o2) wb wb' wo wo'
+    | null => simp [merge, OutEqv]
+    | bool b => simp [merge, OutEqv]
+    | int i => simp [merge, OutEqv]
+    | float s => simp [merge, OutEqv]
+    | str s => simp [merge, OutEqv]
+    | seqNil => simp [merge, OutEqv]
+    | seqCons _ _ => simp [merge, OutEqv]
+  | null => simp [merge, OutEqv]
+  | bool b => simp [merge, OutEqv]
+  | int i => simp [merge, OutEqv]
+  | float s => simp [merge, OutEqv]
+  | str s => simp [merge, OutEqv]
+  | seqNil => simp [merge, OutEqv]
+  | seqCons _ _ => simp [merge, OutEqv]
+
+/-- **`override.ExtendService` as a whole** (its own fuel) -/
+theorem extendService_whole_order_independent {base base' over over' : Val}
+    (hb : Eqv base base') (ho : Eqv over over') (wb : WF base) (wb' : WF base') (wo : WF over) (wo' : WF over') :
+    OutEqv Eqv (extendService base over) (extendService base' over') := by
+  cases hb with
+  | map b1 b2 =>
+    cases ho with
+    | map o1 o2 =>
+      simp only [extendService]
+      rw [fuelFor_eqv (.map o1 o2) wo wo']
+      exact (mergeYaml_full _ ["services", "x"]).1 _ _ _ _ (.map b1 b2) (.map o1 o2) wb wb' wo wo'
+    | null => simp [extendService, OutEqv]
+    | bool b => simp [extendService, OutEqv]
+    | int i => simp [extendService, OutEqv]
+    | float s => simp [extendService, OutEqv]
+    | str s => simp [extendService, OutEqv]
+    | seqNil => simp [extendService, OutEqv]
+    | seqCons _ _ => simp [extendService, OutEqv]
+  | null => simp [extendService, OutEqv]
+  | bool b => simp [extendService, OutEqv]
+  | int i => simp [extendService, OutEqv]
+  | float s => simp [extendService, OutEqv]
+  | str s => simp [extendService, OutEqv]
+  | seqNil => simp [extendService, OutEqv]
+  | seqCons _ _ => simp [extendService, OutEqv]
+
+/-- the nesting depth (from which `Merge` computes its fuel) does not see the order either -/
+theorem fuelFor_order_independent {v w : Val} (h : Eqv v w) (wv : WF v) (ww : WF w) : fuelFor v = fuelFor w :=
+  fuelFor_eqv h wv ww
 
 /-- `fmt.Sprintf("%v")` (used by `convertIntoSequence`) prints equivalent trees identically -/
 theorem fmtV_order_independent {v w : Val} (h : Eqv v w) (wv : WF v) (ww : WF w) : Merge.fmtV v = Merge.fmtV w :=
